@@ -564,6 +564,14 @@ func (vm *VM) nextCall() bool {
 			// A deferred call is returned. If there is another deferred
 			// call, it will be executed, otherwise the previous call will be
 			// finalized.
+			if call.status == recovered {
+				// The deferred call that recovered the panic is returned:
+				// the panic, and the panics raised after the call panicked,
+				// are no longer active.
+				vm.panic = call.prevPanic
+				call.status = returned
+				vm.calls[i].status = returned
+			}
 			if i > 0 {
 				prev := vm.calls[i-1]
 				if prev.status == deferred {
@@ -576,31 +584,22 @@ func (vm *VM) nextCall() bool {
 				vm.fp = call.fp
 				vm.finalize(regs)
 			}
-			if call.status == recovered {
-				numPanicked := 0
-				for _, c := range vm.calls {
-					if c.status == panicked {
-						numPanicked++
-					}
-				}
-				num := 0
-				for p := vm.panic; p != nil; p = p.next {
-					num++
-				}
-				for p := vm.panic; num > numPanicked; num-- {
-					p = p.next
-					vm.panic = p
-				}
-			}
 			continue
 		case panicked:
 			// A call is panicked, the first deferred call in the call stack,
-			// if there is one, will be executed.
+			// if there is one, will be executed. The panicked and recovered
+			// calls in between are aborted: when the new panic is recovered,
+			// their panics are no longer active either.
+			prevPanic := call.prevPanic
 			for i = i - 1; i >= 0; i-- {
 				call = vm.calls[i]
+				if call.status == panicked || call.status == recovered {
+					prevPanic = call.prevPanic
+				}
 				if call.status == deferred {
 					vm.calls[i] = vm.calls[i+1]
 					vm.calls[i].status = panicked
+					vm.calls[i].prevPanic = prevPanic
 					i++
 					vm.calls = vm.calls[:i]
 					break
@@ -900,6 +899,11 @@ type callFrame struct {
 	pc          Addr       // program counter.
 	status      callStatus // status.
 	numVariadic int8       // number of variadic arguments.
+
+	// prevPanic, for the panicked and recovered statuses, is the chain of the
+	// panics that were active before the call panicked. It becomes again
+	// the chain of active panics once the panic of the call is recovered.
+	prevPanic *PanicError
 }
 
 type callable struct {
